@@ -3,7 +3,7 @@
 
 use crate::out::{guarded, trim, Ev, Trace};
 use crate::rng::Rng;
-use num_bigint::BigUint;
+use num_bigint::{BigInt, BigUint, Sign};
 
 pub trait GroupApi: Copy + Send + 'static {
     const NAME: &'static str;
@@ -497,7 +497,60 @@ pub fn scalar_classes<G: GroupApi>(rng: &mut Rng, count: usize) -> Vec<Vec<u8>> 
         v.push(x % &n);
     }
     v.truncate(count.max(40));
-    v.into_iter().map(|x| to_le(&x, len)).collect()
+    let mut out: Vec<Vec<u8>> = v.into_iter().map(|x| to_le(&x, len)).collect();
+    out.extend(endo_boundary_scalars::<G>(rng, count / 2));
+    out
+}
+
+/// For the groups whose scalar multiplication splits k along an endomorphism
+/// (k = k0 + k1*mu mod r with mu^2 = -1, or lambda^2 + lambda + 1 = 0), the split
+/// rounds k*e/r for the coefficients e of a short basis of the lattice
+/// {(a, b) : a + b*mu = 0 mod r}.  Scalars for which such a quotient sits on a
+/// 64-bit word boundary (low word 0 or all-ones, either side of the rounding
+/// correction) exercise the carry/borrow propagation of that computation.
+pub fn endo_boundary_scalars<G: GroupApi>(rng: &mut Rng, count: usize) -> Vec<Vec<u8>> {
+    let r = G::order();
+    let ri = BigInt::from_biguint(Sign::Plus, r.clone());
+    let one = BigUint::from(1u32);
+    let order = match G::NAME { "jq255e" | "gls254" => 4u32, "secp256k1" => 3u32, _ => return Vec::new() };
+    // an element of multiplicative order 4 (resp. 3) modulo r
+    let mut g = 2u32;
+    let mu = loop {
+        let m = BigUint::from(g).modpow(&((&r - 1u32) / order), &r);
+        let sq = (&m * &m) % &r;
+        if (order == 4 && sq == &r - 1u32) || (order == 3 && m != one) { break m; }
+        g += 1;
+    };
+    // Lagrange-Gauss reduction of [(r, 0), (-mu, 1)]
+    let mut u = (ri.clone(), BigInt::from(0));
+    let mut v = (-BigInt::from_biguint(Sign::Plus, mu), BigInt::from(1));
+    let norm = |w: &(BigInt, BigInt)| &w.0 * &w.0 + &w.1 * &w.1;
+    loop {
+        if norm(&u) < norm(&v) { std::mem::swap(&mut u, &mut v); }
+        let nv = norm(&v);
+        let sp = &u.0 * &v.0 + &u.1 * &v.1;
+        // nearest integer to sp / nv
+        let two = BigInt::from(2);
+        let (num, den) = (&sp * &two + &nv, &nv * &two);     // den > 0
+        let mut q = &num / &den;                              // truncates toward zero
+        if num < BigInt::from(0) && &q * &den != num { q -= 1; }
+        if q == BigInt::from(0) { break; }
+        u = (&u.0 - &q * &v.0, &u.1 - &q * &v.1);
+    }
+    let es: Vec<BigUint> = [&u.0, &u.1, &v.0, &v.1].iter().map(|x| x.magnitude().clone())
+        .filter(|x| *x > one).collect();
+    let mut out = Vec::new();
+    while out.len() < count {
+        let e = rng.pick(&es).clone();
+        let eb = e.bits() as usize;
+        if eb <= 66 { continue; }
+        let m = BigUint::from_bytes_le(&rng.bytes(16)) % (&one << (eb - 65)) + 1u32;
+        let t = (m << 64) + 1u32 - BigUint::from(rng.below(3) as u32);     // m*2^64 + {1, 0, -1}
+        let k = (&t * &r + &e - 1u32) / &e;                                  // ceil(t*r/e)
+        let k = if rng.chance(1, 4) { k + 1u32 } else { k };
+        out.push(to_le(&(k % &r), G::SC_LEN));
+    }
+    out
 }
 
 fn small_ints() -> Vec<u64> {
@@ -748,6 +801,20 @@ fn run_codec<G: GroupApi>(tr: &mut Trace, rng: &mut Rng, plan: &Plan) {
     let mut m = Mach::<G>::new(tr);
     for c in cands.iter() {
         if !m.decode(0, c) { m = Mach::<G>::new(tr); continue; }
+    }
+    // representative independence: D = P - decode(encode(P)) is a representative of the
+    // neutral that decode never produces; P + D another representative of P
+    for i in 0..(plan.codec_random / 3).max(12) {
+        let ok = if G::map_len() > 0 && i % 2 == 1 { m.map(1, &rng.bytes(G::map_len())) }
+                 else { m.mulgen(1, &rng.bytes(G::SC_LEN), i as u32) };
+        if !ok { m = Mach::<G>::new(tr); continue; }
+        let enc = m.regs[1].encode();
+        let ok = m.cst(0, "NEUTRAL") && m.decode(2, &enc) && m.bin("sub", 3, 1, 2, i as u32)
+            && m.bin("sub", 4, 2, 1, i as u32) && m.bin("add", 5, 1, 3, 0) && m.un("neg", 6, 3, 0)
+            && m.un("double", 7, 5, 0) && m.un("double", 8, 2, 0);
+        if !ok { m = Mach::<G>::new(tr); continue; }
+        m.isneutral(3); m.isneutral(4); m.isneutral(6); m.equals(3, 0); m.equals(0, 4); m.encode(3); m.encode(4);
+        m.equals(5, 1); m.equals(5, 2); m.equals(2, 5); m.encode(5); m.isneutral(5); m.equals(7, 8); m.encode(7);
     }
     // byte-string-to-group maps: boundary and random inputs
     if G::map_len() > 0 {
